@@ -212,7 +212,7 @@ func TestC16(t *testing.T) {
 			"signature, the Any and the message; repeated scalar; explicit default; reordered fields; non-minimal varints for outer length, tag, inner length, value) — only re-encodings that "+
 			"the real decoder accepts AND that decode to a tx with identical sign bytes, signature and fee are used. Oracle: every resubmission has code != 0 and the recipient was credited "+
 			"exactly once over the whole history. non-trivial = at least one accepted re-encoding with different bytes and equal sign bytes was resubmitted",
-		map[string]float64{"reencoding-accepted-by-decoder": 0.9, "same-block-duplicate": 0.9, "later-block-duplicate": 0.9, "original-fails-in-handler": 0.2},
+		map[string]float64{"reencoding-accepted-by-decoder": 0.9, "same-block-duplicate": 0.9, "later-block-duplicate": 0.9, "original-fails-in-handler": 0.2, "original-signed-by-multisig": 0.08},
 		func(rt *rapid.T, c *harness.Case) {
 			w := chain.GenWorld(rt)
 			c.Opf("%s", w.Describe())
@@ -228,8 +228,14 @@ func TestC16(t *testing.T) {
 				entropy = -entropy
 			}
 			var msg sdk.ProtoMsg = &nodesTypes.MsgSend{FromAddress: chain.Addr(from), ToAddress: to, Amount: sdk.NewInt(amt)}
-			tKind := rapid.SampledFrom([]string{"send", "send", "daoTransferByNonOwner", "appTransferByNonApp"}).Draw(rt, "tKind")
+			tKind := rapid.SampledFrom([]string{"send", "send", "daoTransferByNonOwner", "appTransferByNonApp", "multisigSend"}).Draw(rt, "tKind")
+			fromAddr := chain.Addr(from)
 			switch tKind {
+			case "multisigSend":
+				// the signer is a multi-signature account (its own branch of the ante handler)
+				fromAddr = chain.MultiAddr(w.Multi)
+				msg = &nodesTypes.MsgSend{FromAddress: fromAddr, ToAddress: to, Amount: sdk.NewInt(amt)}
+				c.Label("original-signed-by-multisig")
 			case "daoTransferByNonOwner":
 				// authenticates (the sender names itself), pays the fee, then fails in the gov handler: its only effect is the fee
 				if !from.PublicKey().Equals(w.Spec.DAOOwner.PublicKey()) {
@@ -243,7 +249,12 @@ func TestC16(t *testing.T) {
 				c.Label("original-fails-in-handler")
 			}
 			T := chain.SignTx(w.Spec.ChainID, msg, chain.DefaultFee, memo, entropy, from)
-			c.Opf("T = %s amt=%d by %s memo=%q entropy=%d (%d bytes)", tKind, amt, w.KeyName(from), memo, entropy, len(T))
+			signerName := w.KeyName(from)
+			if tKind == "multisigSend" {
+				T = chain.SignMultiTx(w.Spec.ChainID, msg, sdk.NewCoins(sdk.NewCoin(sdk.DefaultStakeDenom, sdk.NewInt(chain.DefaultFee))), memo, entropy, w.Multi, w.MultiMembers, nil, nil)
+				signerName = fmt.Sprintf("multisig(%d members)", len(w.MultiMembers))
+			}
+			c.Opf("T = %s amt=%d by %s memo=%q entropy=%d (%d bytes)", tKind, amt, signerName, memo, entropy, len(T))
 			dec := auth.DefaultTxDecoder(app.Codec())
 			orig, derr := dec(T, 10)
 			if derr != nil {
@@ -294,7 +305,7 @@ func TestC16(t *testing.T) {
 			}
 			sameBlock, nextBlock, later := pick("inSameBlock"), pick("inNextBlock"), pick("later")
 			credited := func() sdk.BigInt { return n.Balance(to) }
-			payer := func() sdk.BigInt { return n.Balance(chain.Addr(from)) }
+			payer := func() sdk.BigInt { return n.Balance(fromAddr) }
 			deliver := func(where string, name string, bz []byte) {
 				before, pbefore := credited(), payer()
 				r := n.DeliverTx(bz)
